@@ -313,6 +313,27 @@ def check(ctx):
            "no values -> None; any str -> ''; all numeric -> NaN; all date-like -> NaT; otherwise None" if ok else
            "the decision list that picks the missing value from the element types no longer matches the statement",
            clause="NaN for numbers, NaT for dates and datetimes, the empty string for strings, None otherwise")
+    # np.issubdtype(dtype, T) asks "is dtype one of the KIND T" only for NumPy's abstract classes; the Python builtins
+    # int / float / bool / complex / str denote ONE concrete dtype (int64, float64, ...), so int32 or float32 are not "int"/"float"
+    ABSTRACT = {"np.integer", "np.signedinteger", "np.unsignedinteger", "np.floating", "np.inexact", "np.number", "np.complexfloating",
+                "np.datetime64", "np.timedelta64", "np.bool_", "np.str_", "np.bytes_", "np.object_", "np.character", "np.flexible",
+                "np.generic"}
+    n_sub = 0
+    for q_, f_ in sorted(repo.functions.items()):
+        if f_.module.name not in ("dataiter.vector", "dataiter.aggregate", "dataiter.dt", "dataiter.util", "dataiter.data_frame") or f_.parent is not None:
+            continue
+        for ff_, c_ in calls_in(f_):
+            if repo.dotted(ff_, c_.func) != "numpy.issubdtype" or len(c_.args) != 2:
+                continue
+            n_sub += 1
+            t_ = norm(c_.args[1])
+            oka = t_ in ABSTRACT or not (isinstance(c_.args[1], ast.Name) and c_.args[1].id in ("int", "float", "bool", "complex", "str", "bytes", "object"))
+            ctx.ob("SIB-9", ff_, norm(c_), c_, oka,
+                   f"{t_} is a class of NumPy's scalar hierarchy: the test holds for every width of that kind" if oka else
+                   f"np.issubdtype(..., {t_}) compares with the ONE dtype the Python type {t_} stands for (int64 / float64 / ...): vectors "
+                   f"of another width (int32, uint8, float32) are no longer recognised as that kind, so e.g. their missing values are not "
+                   f"converted / detected", clause="for all finite sequences ... with and without an explicit dtype")
+    ctx.count("np.issubdtype sites", n_sub, 10)
     # an explicitly requested dtype is what np.array is given and is not converted afterwards
     npa = repo.fn(f"{VEC}._np_array")
     DT = npa.params[2] if len(npa.params) > 2 else "dtype"
@@ -385,7 +406,11 @@ def check(ctx):
             gated = any(m in txt for m in MASK_EQ) or any(mn in txt.split(" and ")[0] for mn in mask_names if " and " in txt) \
                 or any((k == "T" and (t in MASK_EQ or t in mask_names)) or (k == "F" and t.startswith("not ") and t[4:] in mask_names)
                        for k, t in fx)
-            good = good and gated
+            # the mask comparison must come FIRST and short-circuit: `&` evaluates the element comparison even when the masks
+            # differ, and then the two non-missing parts have different lengths
+            bitand = [x for x in ast.walk(r.value) if isinstance(x, ast.BinOp) and isinstance(x.op, ast.BitAnd)
+                      and any(m in norm(x) for m in MASK_EQ) and any(t_ in norm(x) for t_ in ELEM_EQ)]
+            good = good and gated and not bitand
         ok = good
     ctx.ob("NA-flow", eq, "equal: same missing positions AND equal non-missing elements", eq.node, ok,
            "both vectors' NA masks are compared and the non-missing elements of each are compared with each other" if ok else
